@@ -521,6 +521,10 @@ class ConfigParser(object):
       return False, None
 
     while continue_parsing:
+      if token_value not in ('', '-'):
+        # Adjacent string literals are evaluated together: keep them separate
+        # tokens (two quotes followed by a quote would open a triple quote).
+        token_value += ' '
       token_value += self._current_token.string
 
       try:
